@@ -422,3 +422,49 @@ def kegroup_zero_test_reviewed(ctx, rep, rule, sn):
         rep.ob(rule, 'KeGroup::is_zero_scalar compares the scalar itself with zero', good, 'computes %s' % (show(val)[:160] if val is not None else None), w, sn,
                sample='is_zero_scalar(s) = %s' % (show(val)[:100] if val is not None else None))
     return n
+
+
+VGROUP_METHODS = ('hash_to_curve', 'hash_to_scalar', 'base_elem', 'identity_elem', 'serialize_elem', 'deserialize_elem', 'random_scalar',
+                  'invert_scalar', 'is_zero_scalar', 'serialize_scalar', 'deserialize_scalar')
+
+
+def vgroup_forwarding(ctx, rep, rule, only=None):
+    """`impl voprf::Group for opaque_ke::Ristretto255` (the public forwarding layer for user-defined OPRF suites over the crate's group
+    type): every method returns the same method of `voprf::Ristretto255` applied to its own arguments, unmodified and in order, with the
+    same type arguments — so everything the dependency's decoders reject (identity, non-canonical, zero) stays rejected through it."""
+    S = ctx.suite('vg:vgroup')
+    n = 0
+    seen = set()
+    for b in S.bodies.values():
+        if b.get('crate') != 'opaque_ke' or b.get('impl_trait_dpath') != 'voprf::group::Group':
+            continue
+        name = b.get('name')
+        if only and name not in only:
+            continue
+        seen.add(name)
+        ps = [Sym('arg%d' % i) for i in range(b.get('argc', 0))]
+        s = ctx.summary('vg:vgroup', b['generic_path'], params=ps, select=b['path'])
+        w = where_of(s)
+        # the interpreter's own names for three voprf::Group methods it models
+        alts = ('Group::' + name, {'identity_elem': 'identity_elem', 'serialize_elem': 'ser_elem', 'serialize_scalar': 'ser_scalar'}.get(name, ''))
+        good = s.complete and len(s.paths) == 1 and any(s.paths[0].value == App(a, *ps) for a in alts if a)
+        calls = [bb['term']['callee'] for bb in b['blocks'] if bb.get('term', {}).get('k') == 'call']
+        own = _trailing_generics(b['path'])
+        tgt = [c for c in calls if c.get('name') == name and c.get('trait_dpath') == 'voprf::group::Group']
+        okc = len(calls) == 1 and len(tgt) == 1
+        detail = 'returns %s' % (show(s.paths[0].value)[:160] if s.paths else s.notes[:2])
+        if okc:
+            args = tgt[0].get('args', [])
+            self_ok = bool(args) and args[0].startswith('voprf::') and args[0].endswith('Ristretto255')
+            gen_ok = [a for a in args[1:] if a != "'_"] == ([own] if own else [])
+            okc = self_ok and gen_ok
+            detail += ' ; callee type arguments %s' % [a[-80:] for a in args]
+        else:
+            detail += ' ; calls in the body: %s' % [c.get('dpath') for c in calls][:4]
+        n += int(good and okc)
+        rep.ob(rule, 'voprf::Group for opaque_ke::Ristretto255: %s forwards to voprf::Ristretto255::%s on its own arguments' % (name, name), good and okc,
+               detail, w, None, sample='%s(args) = <voprf::Ristretto255 as Group>::%s(args)' % (name, name))
+    want = set(only or VGROUP_METHODS)
+    rep.ob(rule, 'voprf::Group for opaque_ke::Ristretto255: all forwarding methods found', seen >= want, 'missing: %s' % sorted(want - seen), '', None)
+    rep.floor(rule, 'forwarding methods reviewed', n, len(want))
+    return n
